@@ -126,6 +126,8 @@ echo "$H" >> "$S/who"
 [ -f "$S/conv" ] && cp "$S/conv" "$CONVERSION_RESPONSE_PATH"
 e=1
 [ -f "$S/exit" ] && read e < "$S/exit"
+# a negative number: the process dies by that signal (no exit status at all)
+if [ "$e" -lt 0 ]; then kill -$((-e)) $$; sleep 5; fi
 exit $e
 `
 
@@ -927,7 +929,7 @@ func (g *gen) hooks(distinct bool) []HookSpec {
 func (g *gen) req(nb int, uid int) Req {
 	q := Req{PathKind: pathKinds[g.r.Intn(len(pathKinds))], Binding: g.r.Intn(nb), Body: "review", Uid: uid, File: "allow"}
 	if g.r.Chance(25) {
-		q.Exit = []int{1, 2, 137}[g.r.Intn(3)]
+		q.Exit = []int{1, 2, 137, -9, -15}[g.r.Intn(5)] // negative: killed by that signal
 	}
 	switch k := g.r.Intn(100); {
 	case k < 45:
@@ -1023,6 +1025,9 @@ func Corpus() []Input {
 			{PathKind: "unknownid", Body: "review", Uid: 7, File: "allow"},
 			{PathKind: "reg", Binding: 0, Body: "norequest:0", Uid: 8, File: "allow"},
 			{PathKind: "reg", Binding: 0, Body: "malformed:1", Uid: 9, File: "allow"},
+			// the hook wrote its verdict and was then killed by a signal: no exit status, a failure
+			{PathKind: "reg", Binding: 0, Body: "review", Uid: 10, File: "allow", Exit: -9},
+			{PathKind: "reg", Binding: 2, Body: "review", Uid: 11, File: "allow", Patch: 3, Exit: -15},
 		}},
 	}
 }
@@ -1099,7 +1104,7 @@ func exhaustivePostExit() []Input {
 		exit       int
 	}
 	files := []fk{{file: "allow"}, {file: "allow", msg: 2, warn: []int{7}, patch: 6}, {file: "deny", msg: 3}, {file: "empty"}, {file: "truncated"},
-		{file: "allowtrail"}, {file: "allow", exit: 1}, {file: "deny", exit: 1}}
+		{file: "allowtrail"}, {file: "allow", exit: 1}, {file: "deny", exit: 1}, {file: "allow", exit: -9}}
 	var ins []Input
 	uid := 0
 	const perCase = 12 // small cases: a failing one shrinks quickly
@@ -1147,7 +1152,7 @@ func exhaustive() []Input {
 	uid := 0
 	for _, p := range paths {
 		var reqs []Req
-		for _, exit := range []int{0, 1} {
+		for _, exit := range []int{0, 1, -9} {
 			for _, f := range files {
 				uid++
 				reqs = append(reqs, Req{PathKind: p.kind, Binding: p.b, Body: "review", Uid: uid, Exit: exit, File: f.file, Msg: f.msg, Warn: f.warn, Patch: f.patch})
